@@ -325,3 +325,33 @@ Proof.
   - destruct (nd_left d =? 0)%Z; [left; eexists; reflexivity | right; left; reflexivity].
   - destruct c; [right; left; reflexivity | right; right; reflexivity | destruct Hs].
 Qed.
+
+(* ================================================================================================ *)
+(* D. '#:parameters' with space- or comma-separated specifiers                                        *)
+(* ================================================================================================ *)
+(* scan_line joins the fields that follow '#:parameters' with commas, so "Sri Zma" and "Sri,Zma" give the
+   same record, hence the same loader step *)
+Lemma join_comma_single : forall x, join_comma [x] = x.
+Proof. reflexivity. Qed.
+
+Lemma npd_parameters_separator_record : forall f0 rest, rest <> [] ->
+  (exists fields, record_of (f0 :: rest) = RecKey NKParameters fields) ->
+  record_of (f0 :: rest) = record_of [f0; join_comma rest].
+Proof.
+  intros f0 rest Hne [fields H]. unfold record_of in *.
+  destruct f0 as [| c f0']; [discriminate |].
+  destruct (c =? 35) eqn:E35.
+  - apply N.eqb_eq in E35. subst c.
+    destruct (find (fun k => bytes_eqb (cstr (skipn 2 (35 :: f0'))) (nkey_text k)) all_nkey) as [k |]; [| discriminate].
+    destruct k; try (injection H as Hk _; discriminate Hk).
+    destruct rest; [congruence |]. reflexivity.
+  - exfalso. destruct c as [| p]; [discriminate |].
+    do 6 (destruct p as [p | p |]; try discriminate). 
+Qed.
+
+Theorem npd_parameters_separator_lemma : forall s f0 rest, rest <> [] ->
+  (exists fields, record_of (f0 :: rest) = RecKey NKParameters fields) ->
+  nstep s (f0 :: rest) = nstep s [f0; join_comma rest].
+Proof.
+  intros s f0 rest Hne H. destruct s; cbn [nstep]; rewrite ?(npd_parameters_separator_record f0 rest Hne H); reflexivity.
+Qed.
